@@ -35,11 +35,12 @@ Proof.
 Qed.
 
 (* ---- the started-scan ---- *)
-Inductive sev := SStart (t : tid) | SWr (t : tid) (refresh : bool).
+Inductive sev := SStart (t : tid) | SWr (t : tid) (refresh : bool) | SEnd (t : tid).
 Definition sproj (e : fev) : option sev :=
   match e with
   | FBuildStart t _ => Some (SStart t)
   | FWrite t _ _ _ f _ => Some (SWr t f)
+  | FBuildEnd t _ _ => Some (SEnd t)
   | _ => None
   end.
 
@@ -48,6 +49,7 @@ Fixpoint swf (st : list tid) (l : list sev) : bool :=
   | [] => true
   | SStart t :: r => swf (t :: st) r
   | SWr t f :: r => Bool.eqb f (negb (bool_decide (t ∈ st))) && swf st r
+  | SEnd t :: r => bool_decide (t ∈ st) && swf st r      (* a builder returns only after it was invoked *)
   end.
 
 Fixpoint sstarted (st : list tid) (l : list sev) : list tid :=
@@ -55,16 +57,17 @@ Fixpoint sstarted (st : list tid) (l : list sev) : list tid :=
   | [] => st
   | SStart t :: r => sstarted (t :: st) r
   | SWr _ _ :: r => sstarted st r
+  | SEnd _ :: r => sstarted st r
   end.
 
 Lemma swf_app st l1 l2 : swf st (l1 ++ l2) = swf st l1 && swf (sstarted st l1) l2.
 Proof.
-  revert st; induction l1 as [|[t|t f] l1 IH]; intros st; cbn; [reflexivity|apply IH|].
-  rewrite IH, andb_assoc. reflexivity.
+  revert st; induction l1 as [|[t|t f|t] l1 IH]; intros st; cbn; [reflexivity|apply IH| |];
+    rewrite IH, andb_assoc; reflexivity.
 Qed.
 
 Lemma sstarted_app st l1 l2 : sstarted st (l1 ++ l2) = sstarted (sstarted st l1) l2.
-Proof. revert st; induction l1 as [|[t|t f] l1 IH]; intros st; cbn; auto. Qed.
+Proof. revert st; induction l1 as [|[t|t f|t] l1 IH]; intros st; cbn; auto. Qed.
 
 Lemma refresh_writes_flag : forall l st, swf st (omap sproj l) = true ->
   refresh_writes st l = cntb is_brefresh (omap bproj l).
@@ -72,6 +75,7 @@ Proof.
   unfold cntb. induction l as [|e l IH]; intros st H; [reflexivity|].
   destruct e as [t k r|t k v ttl f res|t k|t k r|t m|t w|t k e ex|t k e|t k v e]; cbn in H |- *.
   all: try (rewrite (IH st H); lia).
+  all: try (apply andb_true_iff in H as [_ H]; rewrite (IH st H); destruct r; lia).
   - (* FWrite *)
     apply andb_true_iff in H as [Hf H]. apply Bool.eqb_prop in Hf.
     rewrite (IH st H). destruct f; cbn.
@@ -99,6 +103,7 @@ Definition step_sevs (t : tid) (th th' : thread) : list sev :=
   | PRefreshWrite => [SWr t true]
   | PBuildWrite => [SWr t false]
   | PBuildLog => [SStart t]
+  | PBuilderExit => [SEnd t]
   | PCtxSync => if inb3 (t_pc th') then [SStart t] else []
   | _ => []
   end.
@@ -202,6 +207,13 @@ Proof.
            - intros t2 th2 Hl. destruct (decide (t2 = t)) as [->|Hne].
              + rewrite Hthr', lookup_insert in Hl. injection Hl as <-. split; [intros He; specialize (He' He); discriminate|].
                intros Hi. congruence.
+             + apply Hthr, (Hother _ _ Hne Hl).
+           - intros t2 Hl. apply Hnone, (Hnone' _ Hl). }
+      (* PBuilderExit: the builder returns; it had been invoked *)
+      12: { rewrite bool_decide_true by (apply Hin3; reflexivity). cbn. split; [reflexivity|]. split.
+           - intros t2 th2 Hl. destruct (decide (t2 = t)) as [->|Hne].
+             + rewrite Hthr', lookup_insert in Hl. injection Hl as <-. split; [intros He; specialize (He' He); discriminate|].
+               intros _. apply Hin3. reflexivity.
              + apply Hthr, (Hother _ _ Hne Hl).
            - intros t2 Hl. apply Hnone, (Hnone' _ Hl). }
       (* every other pc: no event of interest *)
